@@ -24,6 +24,8 @@ def uf_apply(op, args):
         terms = ts
     res = []
     for k, w in enumerate(outs):
+        if not op.arg_bits:
+            res.append(from_term(z3.BitVec('%s#%d' % (op.name, k), w))); continue
         f = z3.Function('%s#%d' % (op.name, k), *([z3.BitVecSort(b) for b in op.arg_bits] + [z3.BitVecSort(w)]))
         res.append(from_term(f(*terms)))
     return tuple(res) if isinstance(op.out_bits, (tuple, list)) else res[0]
